@@ -989,6 +989,7 @@ func main() {
 	runLargeScales()
 	runHugeSymbols()
 	runHintedQR()
+	runTexturedQR()
 	runHistory()
 	runSharedHints()
 	runZeroValueWriters()
